@@ -167,13 +167,130 @@ def validate_trace(sdir, module, cfg, trace, props, nparts, block_ev, extra_cons
 # ----------------------------------------------------------------------------------------------
 # the generic flow
 # ----------------------------------------------------------------------------------------------
+def parse_race_logs(sdir, prefix):
+    """Go race detector reports -> list of dict(pair, a, b). pair classifies the two stacks by their first
+    library/driver frames (the known driver race is Close vs ReadPacket)."""
+    import glob
+    out = []
+    for fp in sorted(glob.glob(prefix + "*")):
+        txt = open(fp, errors="replace").read()
+        for rep in txt.split("WARNING: DATA RACE")[1:]:
+            rep = rep.split("==================")[0]
+            parts = re.split(r"\n\n", rep.strip())
+            stacks = []
+            for part in parts[:2]:
+                fr = [l.strip().split("(")[0] + "()" if False else l.strip() for l in part.splitlines()[1:] if l.strip() and not l.startswith("      ")]
+                fr = [re.sub(r"\(\)$", "", f) for f in fr]
+                stacks.append(fr)
+            if len(stacks) < 2:
+                stacks.append([])
+
+            def lib(fr):
+                return [f for f in fr if "Breeze0806/" in f and "gobinlog_test." not in f]
+            la, lb = lib(stacks[0]), lib(stacks[1])
+            ja, jb = " ".join(la), " ".join(lb)
+
+            def is_close(fr):
+                # the racing access is inside the driver, below mysqlConn.Close called by slaveConnection.close
+                j = " ".join(fr)
+                return bool(fr) and "Breeze0806/mysql." in fr[0] and "mysql.(*mysqlConn).Close" in j and "(*slaveConnection).close" in j
+
+            def is_read(fr):
+                # the reader goroutine touching the driver's packet buffer: inside ReadPacket, or copying the packet
+                # it returned (readBinlogEvent)
+                j = " ".join(fr)
+                return bool(fr) and "readBinlogEvent" in j and ("Breeze0806/mysql." in fr[0] or fr[0].endswith(".readBinlogEvent"))
+            if (is_close(la) and is_read(lb)) or (is_close(lb) and is_read(la)):
+                pair = "driver: mysqlConn.Close (COM_QUIT write) vs DumpConn.ReadPacket"
+            else:
+                pair = "other: %s | %s" % ((la or stacks[0] or ["?"])[0], (lb or stacks[1] or ["?"])[0])
+            out.append({"pair": pair, "a": la[:6], "b": lb[:6]})
+    return out
+
+
+def run_part(part, P, pid, tier, seed, sdir, only, binaries, gen_path, idx):
+    """One harness mode + its trace validation. Returns dict(fails, blocks, lines, vstates, vtrans, nblocks)."""
+    race = part.get("race", False)
+    if race not in binaries:
+        binaries[race] = vf.build_harness(sdir, race=race)
+    binary = binaries[race]
+    block_ev = part.get("block_ev", ["scenario"])
+    traces = []
+    races = []
+    for run_i, tz in enumerate(part.get("zones", ["UTC"])):
+        out = os.path.join(sdir, "trace-%d-%d.ndjson" % (idx, run_i))
+        env = {"VERIF_ZONE": tz}
+        if only is not None:
+            env["VERIF_ONLY"] = str(only)
+        racepfx = os.path.join(sdir, "race-%d-%d" % (idx, run_i))
+        if race:
+            env["GORACE"] = "halt_on_error=0 exitcode=0 log_path=%s" % racepfx
+        start_from = 0
+        crashes = []
+        for restart in range(25):
+            if start_from:
+                env["VERIF_FROM"] = str(start_from)
+                env["VERIF_APPEND"] = "1"
+            rc, hout = vf.run_harness(binary, part["mode"], out, seed, tier, infile=gen_path, tz=tz, extra_env=env,
+                                      timeout=part.get("harness_timeout", 3000))
+            if rc == 0 or (race and "race detected during execution of test" in hout and "panic:" not in hout):
+                break
+            if "panic:" in hout or "fatal error:" in hout:
+                # the library panicked: attribute the crash to the scenario in progress and go on with the next one
+                cur = None
+                ended = set()
+                for ln in open(out):
+                    m = re.search(r'"ev":\s*"([a-zA-Z0-9_]+)"', ln)
+                    if not m:
+                        continue
+                    if m.group(1) in block_ev:
+                        cur = json.loads(ln)
+                    if m.group(1) == "end":
+                        ended.add(json.loads(ln).get("id"))
+                if cur is None or cur.get("id") in ended:
+                    raise vf.NoVerdict("harness crashed outside a scenario:\n%s" % hout[-3000:])
+                pm = re.search(r"(panic:[^\n]*|fatal error:[^\n]*)", hout)
+                with open(out, "a") as fh:
+                    fh.write(json.dumps({"ev": "panic", "id": cur["id"], "att": -1, "msg": (pm.group(1) if pm else "panic")[:300]}) + "\n")
+                    fh.write(json.dumps({"ev": "end", "id": cur["id"]}) + "\n")
+                start_from = cur["id"] + 1
+                crashes.append(cur["id"])
+                continue
+            raise vf.NoVerdict("harness (%s) exited with %d:\n%s" % (part["mode"], rc, hout[-3000:]))
+        else:
+            raise vf.NoVerdict("harness keeps crashing")
+        if race:
+            rr = parse_race_logs(sdir, racepfx)
+            with open(out, "a") as fh:
+                for r in rr:
+                    fh.write(json.dumps({"ev": "race", "att": -1, "pair": r["pair"], "a": r["a"], "b": r["b"]}) + "\n")
+            races += rr
+        traces.append(out)
+    trace = os.path.join(sdir, "trace-%d.ndjson" % idx)
+    with open(trace, "w") as fh:
+        for tpath in traces:
+            with open(tpath) as src:
+                shutil.copyfileobj(src, fh)
+    nparts = 16 if tier == "thorough" else part.get("quick_parts", 8)
+    fails, nblocks, vstates, vtrans, results = validate_trace(
+        sdir, part["trace_module"], part["trace_cfg"], trace, part["props"], nparts, block_ev,
+        extra_consts=part.get("trace_consts"), heap=part.get("trace_heap", "3g"))
+    lines = read_trace(trace)
+    blocks = [l for l in lines if l.get("ev") in block_ev]
+    for f in fails:
+        f["part"] = idx
+    return dict(fails=fails, blocks=blocks, nlines=len(lines), vstates=vstates, vtrans=vtrans, nblocks=nblocks, races=len(races))
+
+
 def run(pid, tier, seed, sdir, replay, t0):
     P = REGISTRY[pid]
+    parts = P.get("parts") or [P]
     known = vf.load_known()
     only = None
+    only_part = None
     if replay:
         rp = json.load(open(replay))
-        seed, tier, only = rp["seed"], rp["tier"], rp.get("only")
+        seed, tier, only, only_part = rp["seed"], rp["tier"], rp.get("only"), rp.get("part", 0)
         print("replaying %s: seed=%s tier=%s scenario=%s" % (replay, seed, tier, only))
     mc_states = mc_trans = 0
     mc_notes = []
@@ -188,36 +305,18 @@ def run(pid, tier, seed, sdir, replay, t0):
     gen_path, gen_n = "", 0
     if P.get("gen"):
         gen_path, gen_n, _ = run_gen(sdir, P["gen"], tier, seed)
-    binary = vf.build_harness(sdir, race=P.get("race", False))
-    traces = []
-    for run_i, tz in enumerate(P.get("zones", ["UTC"])):
-        out = os.path.join(sdir, "trace%d.ndjson" % run_i)
-        env = {}
-        if only is not None:
-            env["VERIF_ONLY"] = str(only)
-        rc, hout = vf.run_harness(binary, P["mode"], out, seed, tier, infile=gen_path, tz=tz, extra_env=env,
-                                  timeout=P.get("harness_timeout", 3000))
-        if rc != 0:
-            # the harness process died (panic in library code kills the test binary): the trace up to that point
-            # is kept and the panic is reported by the monitors of the scenario in progress
-            with open(out, "a") as fh:
-                fh.write(json.dumps({"ev": "crash", "rc": rc, "tail": hout[-1500:]}) + "\n")
-            P_crash = True
-            raise vf.NoVerdict("harness exited with %d:\n%s" % (rc, hout[-3000:]))
-        traces.append(out)
-    trace = os.path.join(sdir, "trace.ndjson")
-    with open(trace, "w") as fh:
-        for tpath in traces:
-            with open(tpath) as src:
-                shutil.copyfileobj(src, fh)
-    nparts = 16 if tier == "thorough" else P.get("quick_parts", 8)
-    fails, nblocks, vstates, vtrans, results = validate_trace(
-        sdir, P["trace_module"], P["trace_cfg"], trace, P["props"], nparts, P.get("block_ev", ["scenario"]),
-        extra_consts=P.get("trace_consts"), heap=P.get("trace_heap", "3g"))
-    # classify
-    lines = read_trace(trace)
-    blocks = [l for l in lines if l.get("ev") in P.get("block_ev", ["scenario"])]
-    byid = {b.get("id"): b for b in blocks}
+    binaries = {}
+    results = []
+    for idx, part in enumerate(parts):
+        if only_part is not None and idx != only_part:
+            continue
+        results.append(run_part(part, P, pid, tier, seed, sdir, only, binaries, gen_path, idx))
+    fails = [f for r in results for f in r["fails"]]
+    blocks = [b for r in results for b in r["blocks"]]
+    byid = {}
+    for i, r in enumerate(results):
+        for b in r["blocks"]:
+            byid[(i if only_part is None else only_part, b.get("id"))] = b
     viol, knownhits = [], {}
     for f in fails:
         k = match_known(pid, f, known)
@@ -228,51 +327,54 @@ def run(pid, tier, seed, sdir, replay, t0):
     for kid, (k, n) in sorted(knownhits.items()):
         print("KNOWN-FINDING: property=%s %s (%d instances in this run)" % (pid, k["what"], n))
     rc = 0
-    replay_paths = []
+    if replay:
+        print("replay finished: %d monitor failures, %d not covered by known findings" % (len(fails), len(viol)))
+        for f in fails[:20]:
+            print("  ", json.dumps(f))
+        return 1 if viol else 0
     if viol:
-        # one replay artefact per violating scenario (at most 5 are written)
         seen = []
         for f in viol:
-            if f.get("id") in seen:
+            key = (f.get("part", 0), f.get("id"))
+            if key in seen:
                 continue
-            seen.append(f.get("id"))
+            seen.append(key)
             if len(seen) > 5:
                 break
             os.makedirs(os.path.join(VERIF, "replays"), exist_ok=True)
-            rp = os.path.join(VERIF, "replays", "%s-%s-s%d-%s.json" % (pid, tier, seed, f.get("id")))
+            rp = os.path.join(VERIF, "replays", "%s-%s-s%d-p%d-%s.json" % (pid, tier, seed, key[0], key[1]))
             with open(rp, "w") as fh:
-                json.dump({"property": pid, "seed": seed, "tier": tier, "only": f.get("id"), "mode": P["mode"],
-                           "failures": [x for x in viol if x.get("id") == f.get("id")][:20],
-                           "scenario": shorten(byid.get(f.get("id"), {}))}, fh, indent=1)
-            replay_paths.append(rp)
+                json.dump({"property": pid, "seed": seed, "tier": tier, "only": f.get("id"), "part": key[0],
+                           "mode": parts[key[0]]["mode"],
+                           "failures": [x for x in viol if (x.get("part", 0), x.get("id")) == key][:20],
+                           "scenario": shorten(byid.get(key, {}))}, fh, indent=1)
             print("VIOLATION property=%s replay=%s" % (pid, rp))
             print("  monitor=%s info=%s" % (f.get("mon"), json.dumps(f.get("info"))))
         rc = 1
-    # evidence
     nontriv = P.get("nontrivial", lambda b: True)
     distinct = len({canon_hash(b) for b in blocks if nontriv(b)})
+    vstates = sum(r["vstates"] for r in results)
+    vtrans = sum(r["vtrans"] for r in results)
     cov = {
         "states": max(1, mc_states + vstates), "transitions": max(1, mc_trans + vtrans),
         "model_states": mc_states, "model_transitions": mc_trans,
         "trace_states": vstates,
-        "traces_validated_against_impl": nblocks,
+        "traces_validated_against_impl": sum(r["nblocks"] for r in results),
         "evaluations": len(blocks), "distinct_nontrivial": distinct,
         "scenarios_generated_by_tlc": gen_n,
         "rule": P["rule"],
         "samples": [shorten(b) for b in blocks[:2]] or ["(none)"],
-        "monitors": P["props"], "monitor_failures": len(fails), "known_finding_instances": sum(n for _, n in knownhits.values()),
+        "monitors": sorted({p for part in parts for p in part["props"]}),
+        "monitor_failures": len(fails), "known_finding_instances": sum(n for _, n in knownhits.values()),
+        "race_reports": sum(r["races"] for r in results),
         "model_checking": mc_notes,
-        "checker_cmd": "java -cp tla2tools.jar tlc2.TLC -config %s %s.tla (+ %s)" % (
-            P["trace_cfg"], P["trace_module"], ", ".join(s["module"] for s in P.get("mc", []))),
-        "trusted_base": ["TLC 1.8.0 + CommunityModules Json", "Go toolchain", "harness recorder/projections (harness/root)"],
+        "checker_cmd": "java -cp tla2tools.jar tlc2.TLC -config <cfg> {%s}.tla" % ", ".join(
+            sorted({part["trace_module"] for part in parts} | {s["module"] for s in P.get("mc", [])})),
+        "trusted_base": ["TLC 1.8.0 + CommunityModules Json", "Go toolchain (and its race detector where used)",
+                         "harness recorder/projections (harness/root)"],
         "exhaustive": bool(P.get("exhaustive", False)),
-        "trace_lines": len(lines),
+        "trace_lines": sum(r["nlines"] for r in results),
     }
-    if replay:
-        print("replay finished: %d monitor failures" % len(fails))
-        for f in fails[:20]:
-            print("  ", json.dumps(f))
-        return 1 if viol else 0
     vf.write_evidence(pid, tier, seed, "model_checking", cov, time.time() - t0, len(viol), P.get("assumptions", []))
     print("%s %s: %d scenarios validated, %d monitor failures (%d known), model: %d states; %.0fs" % (
         pid, tier, len(blocks), len(fails), cov["known_finding_instances"], mc_states, time.time() - t0))
@@ -290,6 +392,10 @@ STREAM_ASSUME = [
     "harness process runs with TZ=UTC; FLOAT/DOUBLE texts are compared by strconv.ParseFloat parse-back bits",
 ]
 
+MC_SESSION = dict(module="MC_Session", cfg={"quick": "MC_Session.quick.cfg", "thorough": "MC_Session.thorough.cfg"}, workers=12)
+MC_CONN = dict(module="MC_Conn", cfg={"quick": "MC_Conn.quick.cfg", "thorough": "MC_Conn.thorough.cfg"}, workers=8)
+MC_CONN_SPEC = dict(module="MC_Conn", cfg="MC_Conn.spec.cfg", workers=8)
+MC_BUFFERS = dict(module="MC_Buffers", cfg="MC_Buffers.cfg", workers=4)
 MC_STREAMER = dict(module="MC_Streamer", cfg={"quick": "MC_Streamer.quick.cfg", "thorough": "MC_Streamer.thorough.cfg"}, workers=12)
 
 REGISTRY = {
@@ -303,6 +409,27 @@ REGISTRY = {
                 gen=dict(module="Gen_Units", cfg={"quick": "Gen_Units.quick.cfg", "thorough": "Gen_Units.thorough.cfg"}),
                 rule="scenario = unit sequence over C02's 13-unit alphabet (exhaustive from TLC up to the tier's bound, random beyond), "
                      "all casings of begin/commit/rollback drawn per scenario; distinct by content; non-trivial = contains a committing unit"),
+    "C04": dict(mode="c04", mc=[MC_SESSION], trace_module="Trace_Stream", trace_cfg="Trace_Stream.cfg", props=["C04"],
+                nontrivial=has_tx, assumptions=STREAM_ASSUME,
+                rule="scenario = history x (fault kind x packet/transaction index) as failed attempt(s) on ONE Streamer object, then a clean "
+                     "attempt; fault kinds: socket close/reset, short packet, out-of-sequence packet, ERR, EOF, cancel, handler error, mapper "
+                     "error, mapper column-count mismatch, RowsQuery/IntVar/Rand event, invalid event; both pacings; distinct by content"),
+    "C05": dict(parts=[dict(mode="c05", race=True, trace_module="Trace_Stream", trace_cfg="Trace_Stream.cfg", props=["C05"])],
+                mc=[MC_CONN, MC_CONN_SPEC], nontrivial=has_tx, assumptions=STREAM_ASSUME + [
+                    "the data-race clause is decided by the Go race detector on the replayed schedules (the Go memory model is not modelled in TLA+)"],
+                rule="scenario = history x stop cause x stop point x reader state (lock-step: waiting for the network / burst: holding an "
+                     "event) x handler fast / blocked-at-stop, followed by a clean attempt; run under go test -race; distinct by content"),
+    "C06": dict(mode="c06", mc=[MC_CONN, MC_CONN_SPEC], trace_module="Trace_Stream", trace_cfg="Trace_Stream.cfg", props=["C06"],
+                nontrivial=has_tx, assumptions=STREAM_ASSUME,
+                rule="same schedule classes as C05 with arbitrary master error codes/messages; distinct by content"),
+    "C07": dict(mode="c07", mc=[MC_SESSION], trace_module="Trace_Stream", trace_cfg="Trace_Stream.cfg", props=["C07"],
+                assumptions=STREAM_ASSUME,
+                rule="scenario = (server id, file name, offset) incl. ids >= 2^31, 255-byte and UTF-8 names, offsets to 2^32-1, 1-3 attempts with "
+                     "explicit re-positioning; plus histories with transport faults where later attempts must request the stored position"),
+    "C08": dict(mode="c08", mc=[MC_BUFFERS], trace_module="Trace_Stream", trace_cfg="Trace_Stream.cfg", props=["C08"],
+                nontrivial=has_tx, assumptions=STREAM_ASSUME, trace_heap="6g",
+                rule="scenario = history with event sizes around the driver's 4096-byte buffer x pacing (later packets before/after the handler "
+                     "returns) x handler overwriting every delivered byte slice with a per-transaction pattern; every delivery re-read at the end"),
     "C03": dict(mode="c03", mc=[MC_STREAMER], trace_module="Trace_Stream", trace_cfg="Trace_Stream.cfg", props=["C03"],
                 nontrivial=has_tx, assumptions=STREAM_ASSUME,
                 rule="scenario = generated history (up to 4 files, per-file offset bases up to 2^32) streamed once in full and then once "
